@@ -10,6 +10,7 @@
                  (directly or through the copy constructor / operator= - call-graph closure over Thread members)
  C13.owner       a Thread member that copies another Thread's OS handle leaves the source with 0 on every path (single owner: the
                  destructor detaches, join() on a detached handle does not wait)
+ C13.init        every public constructor of Mutex / Semaphore / Condition initialises the native object it wraps
  C13.join        parallel_for / parallel_invoke join every thread they started before returning; delete follows join
  C13.partition   parallel_for: worker count n is evaluated over a grid of (requested threads, range length): 1 <= n <= both when the
                  range is non-empty; the Context carries start = i0 + worker index, end = i1, stride = n, and beginfN iterates
@@ -36,6 +37,7 @@ def run(ctx):
     check_partition(ctx, prog)
     check_wrappers(ctx, prog)
     check_owner(ctx, prog)
+    check_native_init(ctx, prog)
     return __doc__.split('\n\n', 1)[1]
 
 
@@ -808,3 +810,48 @@ def check_owner(ctx, prog):
                   '%s%s copies the OS handle of `%s` but a path leaves the source holding it too: two Thread objects own one handle, the destructor of either detaches it and join() on the other returns '
                   'immediately while the task is still running (parallel_invoke joins through such copies)' % (f['n'], f['sig'], src.get('n')))
     ctx.floor('C13.owner members copying a handle', n, 1)
+
+
+def check_native_init(ctx, prog):
+    """C13.init: every public constructor of the thin wrappers (Mutex, Semaphore, Condition) initialises the native object it
+    wraps - by a member initialiser, an assignment, or a call of an `*_init` function on its address (helpers followed).  A
+    constructor that leaves `pthread_cond_t` / `sem_t` as the memory happened to be works in zeroed storage and hangs or loses
+    signals anywhere else; sibling constructors must agree."""
+    n = 0
+    for rq in ('asl::Condition', 'asl::Semaphore', 'asl::Mutex', 'asl::RWLock'):
+        rec = prog.records.get(rq)
+        if not rec:
+            continue
+        native = [fl['n'] for fl in rec.get('fields', []) if any(t_ in (T(rec, fl['t']).get('s') or '') for t_ in ('pthread_', 'sem_t', 'CRITICAL_SECTION', 'HANDLE'))]
+        if not native:
+            continue
+        for f in prog.functions:
+            if f.get('cls') != rq or f.get('kind') != 'ctor' or not f.get('body') or f.get('implicit') or f.get('acc') in ('private', 'protected'):
+                continue
+            if len(f['params']) == 1 and T(f, T(f, f['params'][0]['t']).get('to') or f['params'][0]['t']).get('rec') == rq:
+                continue                # copy constructor
+            n += 1
+            ctx.analysed(f)
+            for fld in native:
+                done = any(i_.get('field') == fld and i_.get('written') for i_ in (f.get('inits') or []))
+                for e in q.fn_exprs_inlined(prog, f):
+                    if done:
+                        break
+                    if e.get('k') == 'bin' and e.get('op') == '=' and strip_lv(e['x']).get('k') == 'mem' and strip_lv(e['x']).get('f') == fld:
+                        done = True
+                    if e.get('k') == 'call' and ((e.get('fn') or '').endswith('_init') or (e.get('fn') or '').startswith(('Initialize', 'Create'))):
+                        for a in e.get('a', []):
+                            a_ = strip(a)
+                            while a_.get('k') in ('cast', 'paren'):
+                                a_ = strip(a_['e'])
+                            if a_.get('k') == 'un' and a_.get('op') == '&' and strip_lv(a_['e']).get('k') == 'mem' and strip_lv(a_['e']).get('f') == fld:
+                                done = True
+                    if e.get('k') == 'call' and e.get('fn') in ('memset', 'memcpy') and e.get('a'):
+                        a_ = strip(e['a'][0])
+                        while a_.get('k') in ('cast', 'paren'):
+                            a_ = strip(a_['e'])
+                        if a_.get('k') == 'un' and a_.get('op') == '&' and strip_lv(a_['e']).get('f') == fld:
+                            done = True
+                role = '%s%s:native object `%s` initialised' % (f['n'], f['sig'], fld)
+                ctx.check(done, 'C13.init', f['pq'], role, fwhere(f), 'initialised by a member initialiser / assignment / *_init call', '%s%s leaves the native object `%s` uninitialised (a sibling constructor initialises it): in memory that is not all zero the first wait() / signal() blocks inside the C library or loses the signal' % (f['n'], f['sig'], fld))
+    ctx.floor('C13.init public constructors of native wrappers', n, 3)
